@@ -80,12 +80,34 @@ func c12Wrap(wrapper, pol string, backend ociregistry.Interface) (ociregistry.In
 	}
 }
 
+// c12Inst is one wrapper instance with its recording backend. Within a case, lines with the
+// same wrapper and policy share one instance (a wrapper must not remember earlier decisions:
+// the property is about every call); each line starts with an empty call log.
+type c12Inst struct {
+	b         *recBackend
+	reg       ociregistry.Interface
+	policyErr func(error) string
+}
+
 func (*c12) Impl(c Case) []string {
 	out := make([]string, len(c.Lines))
+	insts := map[string]*c12Inst{}
 	for i, l := range c.Lines {
-		out[i] = guard(func() string { return c12Line(l) })
+		out[i] = guard(func() string { return c12Line(l, insts) })
 	}
 	return out
+}
+
+func c12Instance(insts map[string]*c12Inst, wrapper, pol string) *c12Inst {
+	key := wrapper + " " + pol
+	if in, ok := insts[key]; ok {
+		in.b.Calls, in.b.Pulled, in.b.RepoEvents = nil, 0, nil
+		return in
+	}
+	in := &c12Inst{b: newRecBackend()}
+	in.reg, in.policyErr = c12Wrap(wrapper, pol, in.b.Funcs)
+	insts[key] = in
+	return in
 }
 
 func showRecCalls(calls []recCall, args []reflect.Value) string {
@@ -103,12 +125,11 @@ func showRecCalls(calls []recCall, args []reflect.Value) string {
 	return strings.Join(cs, "+")
 }
 
-func c12Line(l string) string {
+func c12Line(l string, insts map[string]*c12Inst) string {
 	t := strings.Split(l, " ")
 	if len(t) != 6 || (t[0] != "ac" && t[0] != "sel") {
 		return "bad-op"
 	}
-	b := newRecBackend()
 	switch t[1] {
 	case "call":
 		r1, ok1 := untok(t[3])
@@ -116,7 +137,8 @@ func c12Line(l string) string {
 		if !ok1 || !ok2 || t[2] == "Repositories" {
 			return "bad-op"
 		}
-		reg, policyErr := c12Wrap(t[0], t[5], b.Funcs)
+		in := c12Instance(insts, t[0], t[5])
+		b, reg, policyErr := in.b, in.reg, in.policyErr
 		m, args, ok := wrapperArgs(reg, t[2], context.Background(), r1, r2)
 		if !ok {
 			return "bad-op"
@@ -157,8 +179,9 @@ func c12Line(l string) string {
 			}
 			evs = append(evs, recEv{item: s})
 		}
+		in := c12Instance(insts, t[0], t[5])
+		b, reg, policyErr := in.b, in.reg, in.policyErr
 		b.RepoEvents = func(string) []recEv { return evs }
-		reg, policyErr := c12Wrap(t[0], t[5], b.Funcs)
 		var got []string
 		n := 0
 		reg.Repositories(context.Background(), start)(func(name string, err error) bool {
@@ -353,6 +376,47 @@ func (*c12) Gen(rng *RNG, tier string) []Case {
 			}
 			add("sel call %s %s %s %s", m, tok(r1), tok(r2), joinOrDash(al))
 		}
+	}
+	// one wrapper instance used for several calls: different methods (so different access
+	// kinds) on the same repositories, listings in between
+	nseq := 400
+	if tier == "thorough" {
+		nseq = 20000
+	}
+	for i := 0; i < nseq; i++ {
+		r1, r2 := pick(rng, []string{"a", "b", "c"}), pick(rng, []string{"a", "b", "c"})
+		wrapper := pick(rng, []string{"ac", "sel"})
+		var pol string
+		if wrapper == "ac" {
+			var deny []string
+			for j := rng.Intn(5); j > 0; j-- {
+				deny = append(deny, tok(pick(rng, []string{r1, r2, "*"}))+"."+pick(rng, []string{"r", "w", "d", "l"}))
+			}
+			pol = joinOrDash(deny)
+		} else {
+			var al []string
+			for j := rng.Intn(3); j > 0; j-- {
+				al = append(al, tok(pick(rng, []string{r1, r2, "c", "*"})))
+			}
+			pol = joinOrDash(al)
+		}
+		var lines []string
+		for k := 3 + rng.Intn(5); k > 0; k-- {
+			if rng.Chance(1, 5) {
+				lines = append(lines, fmt.Sprintf("%s list %s %d %s %s", wrapper, tok(""), rng.Intn(4), strings.Join([]string{tok("a"), tok("b"), tok("c")}, ","), pol))
+				continue
+			}
+			m := pick(rng, methods)
+			if m == "Repositories" {
+				m = "DeleteTag"
+			}
+			x, y := r1, r2
+			if rng.Bool() {
+				x, y = y, x
+			}
+			lines = append(lines, fmt.Sprintf("%s call %s %s %s %s", wrapper, m, tok(x), tok(y), pol))
+		}
+		cases = append(cases, Case{Tag: "reuse", Lines: lines})
 	}
 	// malformed lines
 	for _, l := range []string{"ac call NoSuchMethod x61 x62 -", "ac call GetBlob zz x62 -", "ac call Repositories x61 x62 -",
